@@ -114,17 +114,6 @@ class BudgetExceeded(BaseException):
     pass
 
 
-class _CountingTable(dict):
-    """parse_table whose lookups are counted: every expansion of the parse loop does one `.get`"""
-    budget = 2000000
-
-    def get(self, k, d=None):
-        self.n = getattr(self, "n", 0) + 1
-        if self.n > self.budget:
-            raise BudgetExceeded()
-        return dict.get(self, k, d)
-
-
 def _alarm(*a):
     raise BudgetExceeded()
 
@@ -212,14 +201,11 @@ def show_tree(e):
 def parse_reply(parser, text, trace_budget=None):
     old = signal.signal(signal.SIGALRM, _alarm)
     signal.setitimer(signal.ITIMER_REAL, 20.0)
-    saved = parser.parse_table
     try:
         if trace_budget:
             with LineBudget(trace_budget):
                 t = parser.parse(text, do_cleanup=False)
         else:
-            ct = _CountingTable(saved)
-            parser.parse_table = ct
             t = parser.parse(text, do_cleanup=False)
         signal.setitimer(signal.ITIMER_REAL, 0)
         return "tree " + show_tree(t)
@@ -230,7 +216,6 @@ def parse_reply(parser, text, trace_budget=None):
     finally:
         signal.setitimer(signal.ITIMER_REAL, 0)
         signal.signal(signal.SIGALRM, old)
-        parser.parse_table = saved
 
 
 def _names(xs):
@@ -279,6 +264,8 @@ def impl(case, trace_budget=None, parse_budget=None):
                 rep = parse_reply(parser, dec_p(line), parse_budget or trace_budget)
                 overrun = rep == "err BudgetExceeded"
                 out.append(rep)
+        elif op == "amb":       # is_ambiguous() again, after the parses (the table must not have changed)
+            out.append("nogrammar" if parser is None else "amb=%d" % (1 if parser.is_ambiguous() else 0))
         elif op in DIAG_OPS:
             out.append("nogrammar" if parser is None else diag_reply(parser, op))
         elif op == "reset":
@@ -718,7 +705,7 @@ def gen_hidden_rec(rng, T, nts):
 def gen_malformed(rng, T, nts):
     g = gen_nonleftrec(rng, T, nts)
     kind = rng.choice(["unknown-symbol", "no-start", "nt-is-terminal", "dunder", "duplicate-alt", "end-used",
-                       "no-alternatives", "duplicate-empty", "start-used"])
+                       "no-alternatives", "duplicate-empty", "start-used", "dunder-rhs", "dunder-rhs"])
     sym, alts = rng.choice(g)
     if kind == "unknown-symbol":
         alts.append([rng.choice(T), "Q"])
@@ -729,6 +716,12 @@ def gen_malformed(rng, T, nts):
     elif kind == "dunder":
         g.append(["Q__1", [[T[0]]]])
         g[0][1].append(["Q__1"])
+    elif kind == "dunder-rhs":
+        # a reserved name on a right-hand side: the helper symbol of an existing key, or any other `__` name
+        name = rng.choice([g[0][0] + "__S00", sym + "__S00", sym + "__S01", "Q__1", g[0][0] + "__S00__S00"])
+        alts.insert(rng.randint(0, len(alts)), [name] if rng.random() < 0.5 else [rng.choice(T), name])
+        if rng.random() < 0.7:      # make sure a helper of that name really exists
+            g[0][1][:0] = [[T[0], T[1]], [T[0], T[2]]]
     elif kind == "duplicate-alt":
         a = rng.choice(alts) if alts else [T[0]]
         alts.insert(rng.randint(0, len(alts)), list(a))
@@ -781,6 +774,7 @@ def make_case(spec, var_name, words, texts, meta, diags=("prods", "suffix", "tab
         lines.extend(diags)
         for t in texts:
             lines.append(enc_p(spec, t))
+        lines.append("amb")
     m = dict(meta)
     m["variant"] = var_name
     return {"lines": lines, "meta": m, "lexmap": dict(VARIANTS[var_name]["lex"] if lexmap is None else lexmap)}
@@ -944,11 +938,27 @@ def nontrivial(case, replies):
 
 
 def observable(i, line):
-    return line.split()[0] in ("g", "p", "reset")
+    return line.split()[0] in ("g", "p", "amb", "reset")
 
 
 C03_WITNESS = {"tok": [["SPACE", r"\s+"], ["X", "x"], ["Y", "y"], ["Z", "z"]], "syn": {}, "kw": [], "skip": None,
                "start": "E", "prods": [["E", [["A", "E", "X"], ["Y"]]], ["A", [["Z"], []]]]}
+
+
+DUNDER_WITNESS = {"tok": [["SPACE", r"\s+"], ["a", "a"], ["b", "b"], ["c", "c"]], "syn": {}, "kw": [], "skip": None,
+                  "start": "E", "prods": [["E", [["A", "b"], ["A", "c"], ["E__S00"]]], ["A", [["a"]]]]}
+
+
+def dunder_witness_case():
+    """before a1a7d93: accepted, and parse('b') returned E[b] - not a production of the user"""
+    lines = []
+    for smart in (True, False):
+        lines.append(enc_g(DUNDER_WITNESS, smart))
+        for t in ["b", "a b", "c", "a c", ""]:
+            lines.append(enc_p(DUNDER_WITNESS, t))
+        lines.append("amb")
+    return {"lines": lines, "meta": {"gen": "corpus", "variant": "plain", "ref": "malformed"},
+            "lexmap": {"a": "a", "b": "b", "c": "c"}}
 
 
 def witness_case():
@@ -957,5 +967,6 @@ def witness_case():
         lines.append(enc_g(C03_WITNESS, smart))
         for t in ["y", "z y x", "", "x"]:
             lines.append(enc_p(C03_WITNESS, t))
+        lines.append("amb")
     return {"lines": lines, "meta": {"gen": "corpus", "variant": "xyz", "ref": "left-recursive"},
             "lexmap": {"x": "X", "y": "Y", "z": "Z"}}
